@@ -368,25 +368,70 @@ pub fn acceptable(p: &Placement, probe: &Probe, default: &str, table: &BuiltinTa
 // encoding a placement as a run
 
 pub fn section_text(name: Option<&str>, probe: &str, s: &Section) -> String {
-    let mut t = String::new();
-    match name {
-        None => t.push_str("[delta]\n"),
-        Some(n) => t.push_str(&format!("[delta \"{}\"]\n", n)),
-    }
+    section_text_styled(name, probe, s, 0)
+}
+
+/// How a placement's gitconfig file is spelled (a function of the placement): git's configuration
+/// syntax allows several spellings of the same content, and which one is used must not matter.
+/// 0 plain; 1 section and key names in mixed case (they are case-insensitive; subsection names are
+/// not and stay as they are); 2 other spellings of `true` for flags (yes / on / 1 / the bare key)
+/// and, for string options, an earlier assignment of the same key in the same section (the last one
+/// wins); 3 the section split in two blocks with the same header.
+pub fn spelling_of(p: &Placement) -> u64 {
+    crate::rng::fnv64(format!("spell|{}|{:?}|{}", p.probe, p.sources, p.custom.len()).as_bytes()) % 4
+}
+
+pub fn section_text_styled(name: Option<&str>, probe: &str, s: &Section, style: u64) -> String {
+    let mixed = |k: &str| -> String {
+        let mut up = true;
+        k.chars()
+            .map(|c| {
+                let r = if up { c.to_ascii_uppercase() } else { c };
+                up = c == '-';
+                r
+            })
+            .collect()
+    };
+    let header = match (name, style) {
+        (None, 1) => "[Delta]\n".to_string(),
+        (None, _) => "[delta]\n".to_string(),
+        (Some(n), 1) => format!("[DELTA \"{}\"]\n", n),
+        (Some(n), _) => format!("[delta \"{}\"]\n", n),
+    };
+    let key = |k: &str| if style == 1 { mixed(k) } else { k.to_string() };
+    let mut t = header.clone();
     // vary the position of the entries inside the section: flags first, value, features
-    for b in &s.flags {
-        t.push_str(&format!("\t{} = true\n", b));
-    }
-    if let Some(v) = &s.value {
-        // `#` and `;` start a comment in a git config file unless the value is quoted
-        if v.contains('#') || v.contains(';') {
-            t.push_str(&format!("\t{} = \"{}\"\n", probe, v));
+    for (i, b) in s.flags.iter().enumerate() {
+        if style == 2 {
+            match i % 4 {
+                0 => t.push_str(&format!("\t{} = yes\n", b)),
+                1 => t.push_str(&format!("\t{}\n", b)),
+                2 => t.push_str(&format!("\t{} = on\n", b)),
+                _ => t.push_str(&format!("\t{} = 1\n", b)),
+            }
         } else {
-            t.push_str(&format!("\t{} = {}\n", probe, v));
+            t.push_str(&format!("\t{} = true\n", key(b)));
         }
     }
+    if style == 3 && !s.flags.is_empty() && (s.value.is_some() || s.features.is_some()) {
+        t.push_str(&header);
+    }
+    if let Some(v) = &s.value {
+        if style == 2 && probe_by_name(probe).ty == PType::Str {
+            t.push_str(&format!("\t{} = earlier-assignment-that-loses\n", probe));
+        }
+        // `#` and `;` start a comment in a git config file unless the value is quoted
+        if v.contains('#') || v.contains(';') {
+            t.push_str(&format!("\t{} = \"{}\"\n", key(probe), v));
+        } else {
+            t.push_str(&format!("\t{} = {}\n", key(probe), v));
+        }
+    }
+    if style == 3 && s.value.is_some() && s.features.is_some() {
+        t.push_str(&header);
+    }
     if let Some(f) = &s.features {
-        t.push_str(&format!("\tfeatures = {}\n", f.join(" ")));
+        t.push_str(&format!("\t{} = {}\n", key("features"), f.join(" ")));
     }
     t
 }
@@ -403,19 +448,20 @@ pub fn gitconfig_text(p: &Placement) -> String {
     let mut t = String::new();
     let main_empty = p.main.value.is_none() && p.main.features.is_none() && p.main.flags.is_empty();
     // custom sections before or after the main one must not matter: alternate by a hash of the probe
+    let style = spelling_of(p);
     let mut custom = String::new();
     for (n, s) in &p.custom {
-        custom.push_str(&section_text(Some(n), &p.probe, s));
+        custom.push_str(&section_text_styled(Some(n), &p.probe, s, style));
     }
     if p.custom.len() % 2 == 0 {
         if !main_empty {
-            t.push_str(&section_text(None, &p.probe, &p.main));
+            t.push_str(&section_text_styled(None, &p.probe, &p.main, style));
         }
         t.push_str(&custom);
     } else {
         t.push_str(&custom);
         if !main_empty {
-            t.push_str(&section_text(None, &p.probe, &p.main));
+            t.push_str(&section_text_styled(None, &p.probe, &p.main, style));
         }
     }
     t
